@@ -573,6 +573,22 @@ OpDeserStruct ==
   /\ issued' = [issued EXCEPT ![E.dst] = IF E.res.ok /\ PostWs[E.dst].live THEN DOMAIN Ents(PostWs[E.dst]) ELSE {}]
   /\ Chk("C10", "source-changed-by-serialization", Ents(PostWs[E.w]) = Ents(PreWs[E.w]))
 
+(* what `==` computes according to the strict model (WorldStore!StoreEq) on the observed stores and
+   values; a disagreement with the logged result is drift, the property verdict is eq => AbsEq *)
+ObservedStoreEq(a, b) ==
+  LET x == PostStore(a)
+      y == PostStore(b) IN
+  /\ x.len = y.len /\ x.slots = y.slots /\ x.free = y.free
+  /\ Cardinality(DOMAIN x.tables) = Cardinality(DOMAIN y.tables)
+  /\ \A k \in DOMAIN x.tables : k \in DOMAIN y.tables /\ x.tables[k].ids = y.tables[k].ids
+  /\ Vals(Ents(PostWs[a])) = Vals(Ents(PostWs[b]))
+  /\ ResVals(PostWs[a]) = ResVals(PostWs[b])
+EqDrift ==
+  \A a \in Worlds : \A b \in Worlds :
+     (a < b /\ PostWs[a].live /\ PostWs[b].live
+      /\ StoreInvHolds(PostWs[a].dump) /\ StoreInvHolds(PostWs[b].dump)) =>
+        Chk("DRIFT", "equality-differs-from-strict-model", PostWs[a].eq[b] = ObservedStoreEq(a, b))
+
 -----------------------------------------------------------------------------
 (* Lock-step twins (C06 / C10): an op flagged m=2 repeats the previous op on  *)
 (* the twin world and must have the same results and leave the same content.  *)
@@ -680,6 +696,7 @@ FullStep ==
   /\ EqChecks
   /\ MirrorChecks
   /\ DriftChecks
+  /\ EqDrift
   /\ twin' = TwinNext
   /\ IF E.op = "panicked" THEN heap' = {} ELSE HeapChecks /\ heap' = HeapNext
 
